@@ -611,6 +611,18 @@ func (env *Env) evalBinary(e *SExpr) Val {
 	}
 	a := env.eval(e.Args[0])
 	b := env.eval(e.Args[1])
+	// the address of a named location (a field of an object, an element, a local, a global) is never nil; such addresses
+	// are symbolic (Val.A) and carry no reference term
+	if op == "==" || op == "!=" {
+		named := func(v Val) bool { return v.A != nil && v.A.Kind != ACell && v.S == "0" }
+		isNil := func(ex *SExpr) bool { return ex.Op == "nil" }
+		if (named(a) && isNil(e.Args[1])) || (named(b) && isNil(e.Args[0])) {
+			if op == "==" {
+				return boolVal("false")
+			}
+			return boolVal("true")
+		}
+	}
 	// untyped operands adopt the type of the other side
 	if isUntyped(a.T) && !isUntyped(b.T) {
 		a = env.coerce(a, b.T)
